@@ -28,7 +28,7 @@ CHECKS = {
             'std validation is the oracle; covers this CPU\'s dispatch arms only.',
             'DESIGN.md sec. 6 C05'),
     'C06': ('invariant checking with guard bands over generated histories and mem calls + coverage-guided fuzzing under AddressSanitizer (fuzz/); ' + PBT,
-            'Exploration: every streaming method and every mem function with sources/destinations carved out of larger buffers at alignments 0..15 with canary bands, documented-minimum capacities upward, arbitrary prior converter state; read/written/InputEmpty contract, no panic, no reallocation; half of the cases against PROT_NONE guard pages; a separate family with destinations below the documented minimum (panic accepted, out-of-bounds write or written > dst.len() not). Out-of-bounds reads are only visible to the ASan fuzz targets, which run the same drivers with exact-size heap allocations (thorough).',
+            'Exploration: every streaming method and every mem function with sources/destinations carved out of larger buffers at alignments 0..15 with canary bands, documented-minimum capacities upward, arbitrary prior converter state; read/written/InputEmpty contract, no panic, no reallocation; half of the cases against PROT_NONE guard pages; a separate family with destinations below the documented minimum (panic accepted, out-of-bounds write or written > dst.len() not); String / Vec receivers on allocations page-aligned at both ends; the one-shot methods on all atom / alphabet triples and every length query up to usize::MAX in every reachable state (no panic). Out-of-bounds reads are only visible to the ASan fuzz targets, which run the same drivers with exact-size heap allocations (thorough).',
             'Guard bands see writes within 32 units; ASan campaigns are bounded by run count; UB without an observable effect stays invisible.',
             'DESIGN.md sec. 6 C06'),
     'C07': ('invariant checking over generated histories with query-then-call steps; overflow clause by monotonicity / growth extrapolation; ' + PBT,
@@ -40,7 +40,7 @@ CHECKS = {
             'Termination is checked as the stated safety bound.',
             'DESIGN.md sec. 6 C08'),
     'C09': ('differential testing: with-replacement methods vs the documented manual procedure run on a twin converter with identical buffers; ' + PBT,
-            'Exploration: for every call of a generated with-replacement history the twin is driven through *_without_replacement over the same source slice and buffer size, appending U+FFFD / NCRs itself; (result, read, written), output and the per-call boolean must match exactly.',
+            'Exploration: for every call of a generated with-replacement history the twin is driven through *_without_replacement over the same source slice and buffer size, appending U+FFFD / NCRs itself; (result, read, written), output and the per-call boolean must match exactly; histories that begin below the documented minimum are compared as whole text and OR of the flags.',
             'Relates the two modes only (C01/C03 tie the raw mode to the Standard).',
             'DESIGN.md sec. 6 C09'),
     'C10': ('metamorphic testing of the BOM automaton (sniffing decoder on S == no-BOM decoder of the selected encoding on S minus BOM) + for_bom enumeration; ' + PBT,
@@ -52,15 +52,15 @@ CHECKS = {
             'No borrow assertion for empty input.',
             'DESIGN.md sec. 6 C11'),
     'C12': ('round-trip testing with per-prefix invariants over generated encoder histories and a scalar sweep; ' + PBT,
-            'Exploration: after every call the accumulated bytes must decode without error, has_pending_state() must equal the state implied by the emitted bytes, the final ISO-2022-JP stream must end in ASCII, and decoding the whole output must give the input with NCRs and the Standard\'s fixed folds; every scalar of planes 0-2 (all planes in thorough) alone and embedded, bounded-exhaustive history core, seeded random histories.',
+            'Exploration: after every call the accumulated bytes must decode without error, has_pending_state() must equal the state implied by the emitted bytes, the final ISO-2022-JP stream must end in ASCII, and decoding the whole output must give the input with NCRs and the Standard\'s fixed folds; every scalar of planes 0-2 (all planes in thorough) alone and embedded, bounded-exhaustive history core, seeded random histories; the one-shot Encoding::encode held to the same round trip for k long-reference characters + a mapped character + an ASCII tail, every k to 320 (1300).',
             'The folding set is typed in from the Standard; the decoder used is the crate\'s own (C01).',
             'DESIGN.md sec. 6 C12'),
     'C13': ('differential testing against a model of the Standard\'s get-an-encoding on a frozen label table; exhaustive edit/case/padding families + seeded random strings',
-            'Exploration: 228 labels x all single-byte substitutions/insertions/deletions, all case masks up to 12 bytes, all paddings up to 2x2 bytes from a 9-byte set, inner whitespace, over-long strings, names, every string of up to 4-5 label characters, every 2-3 token sequence over the labels\' vocabulary, ~1900 charset names of other registries, the label between every pair of ~50 delimiters, runs around powers of two, two simultaneous substitutions, random strings.',
+            'Exploration: 228 labels x all single-byte substitutions/insertions/deletions, all case masks up to 12 bytes, all paddings up to 2x2 bytes from a 9-byte set, inner whitespace, over-long strings, names, every string of up to 4-5 label characters, every 2-3 token sequence over the labels\' vocabulary, ~1900 charset names of other registries, the label between every pair of ~50 delimiters, runs around powers of two, two simultaneous substitutions, random strings; arguments of 8 bytes and more also as a sub-slice 1..=15 bytes after a 16-byte boundary.',
             'Trusts data/labels.txt.',
             'DESIGN.md sec. 6 C13'),
     'C14': ('differential testing against std::str::from_utf8 / naive scans over planted-defect families at every length, position and alignment, with the scalar path forced through the hook; ' + PBT,
-            'Exploration: every validator x lengths 0..=160 (320) x alignments x fillers x every invalid class at every position with a second defect at stride-relevant distances, ASCII fillers of letters / spaces / punctuation, buffers of 2^k +- 2 units to 65536, the UTF-8 table sweep (every lead x second pair, every three-byte string), valid character x near-valid sequence pairs, all pairs of 48 boundary code units + seeded random; default and simd-accel builds, SIMD-validator path and forced scalar path.',
+            'Exploration: every validator x lengths 0..=160 (320) x alignments x fillers x every invalid class at every position with a second defect at stride-relevant distances, ASCII fillers of letters / spaces / punctuation, buffers of 2^k +- 2 units to 65536, the UTF-8 table sweep (every lead x second pair, every three-byte string), valid character x near-valid sequence pairs, runs of three same-length sequences, all pairs of 48 boundary code units, every triple of 14 units directly after a surrogate pair + seeded random; default and simd-accel builds, SIMD-validator path and forced scalar path.',
             'Only this CPU\'s dispatch arms (AVX2 simdutf8 + scalar via hook).',
             'DESIGN.md sec. 6 C14'),
     'C15': ('differential testing of every mem conversion against std-based reference conversions, incl. encodeInto semantics for *_partial; ' + PBT,
@@ -68,7 +68,7 @@ CHECKS = {
             'std lossy conversions implement the maximal-subpart policy.',
             'DESIGN.md sec. 6 C15'),
     'C16': ('differential testing against iterator-based definitions written from the documentation; exhaustive over all scalars / code units, planted boundary scalars; ' + PBT,
-            'Exploration: is_char_bidi on every scalar, is_utf16_code_unit_bidi on every unit, every BMP scalar alone through all buffer functions, ~130 boundary scalars planted at every position of buffers of every length, invalid UTF-8 classes, the same pair / table / long-buffer / filler families as C14, seeded random; default and simd-accel builds.',
+            'Exploration: is_char_bidi on every scalar, is_utf16_code_unit_bidi on every unit, every BMP scalar alone through all buffer functions, ~130 boundary scalars planted at every position of buffers of every length, invalid UTF-8 classes, the same pair / table / long-buffer / filler / run-of-three / after-pair families as C14, seeded random; default and simd-accel builds.',
             'The RTL set is the documented block list.',
             'DESIGN.md sec. 6 C16'),
     'C17': ('differential testing across build configurations: per-block digests of one deterministic corpus, first differing case extracted on mismatch',
